@@ -256,6 +256,10 @@ H_mutation(o, e) ==
       v1b == IF ~legit /\ e.kind = "update" /\ foreign /\ p.writer # "outside"
              THEN {V("C10", "replacement_without_strictly_higher_priority", w, e)} ELSE {}
       v2 == IF k # x.cfg.group THEN {V("C01", "mutation_of_foreign_group", w, e)} ELSE {}
+      \* C10 compares a candidate's priority with "the priority stored in the record": every version an instance writes carries
+      \* the priority of its configuration (a refresh that publishes another one invites an illegitimate preemption: C07)
+      vp == IF e.kind \in {"create", "update"} /\ e.cls = "payload" /\ e.prio # x.cfg.prio
+            THEN {V("C10", "record_priority_differs_from_configured_priority", w, e), V("C07", "record_priority_differs_from_configured_priority", w, e)} ELSE {}
       acquisition == e.kind \in {"create", "update"} /\ ~(p.live /\ p.writer = w /\ p.tok = e.tok)
       v3 == IF acquisition /\ ~FreshToken(e.tok, o.tokens)
             THEN {V("C05", "acquisition_token_not_fresh", w, e)} ELSE {}
@@ -263,7 +267,7 @@ H_mutation(o, e) ==
             THEN {V("C05", "refresh_changes_token_or_identity", w, e)} ELSE {}
       n == IF e.kind = "delete" THEN Tomb(e, w) ELSE MkRec(e, w)
       r1 == RecChanged(o, k, n, w, (IF e.kind = "delete" THEN "deleted" ELSE "replaced"), e)
-  IN R(r1.o, r1.v \cup v1 \cup v1b \cup v2 \cup v3 \cup v4)
+  IN R(r1.o, r1.v \cup v1 \cup v1b \cup v2 \cup v3 \cup v4 \cup vp)
 
 H_op_apply(o, e) ==
   LET o0 == IF e.lost THEN [o EXCEPT !.faulty = TRUE, !.hard = TRUE, !.I[e.i].cut = TRUE] ELSE o
@@ -571,6 +575,8 @@ Handle(o, e) ==
   ELSE IF ev = "closed" THEN H_closed(o, e)
   ELSE IF ev = "script_miss"          \* a model behaviour being replayed could not be followed: the rest of the run is not paced by the script
        THEN R([o EXCEPT !.faulty = TRUE, !.hard = TRUE, !.I = [i \in Ids |-> [o.I[i] EXCEPT !.cut = TRUE]]], {})
+  ELSE IF ev = "gate" /\ e.where = "stop_leader_duration" /\ ~e.leader /\ o.I[e.i].ctxOpen # {}
+       THEN R(o, {V("C19", "promotion_context_alive_after_leadership_flag_cleared", e.i, e)})
   ELSE IF ev = "health_done" THEN R(SetI(o, e.i, [o.I[e.i] EXCEPT !.hpend = FALSE]), {})
   ELSE IF ev = "start_ctx_cancelled" THEN R(SetI(o, e.i, [o.I[e.i] EXCEPT !.appCancel = TRUE, !.halted = TRUE, !.ready = FALSE]), {})
   ELSE IF ev = "partition" THEN H_partition(o, e)
